@@ -155,9 +155,9 @@ func (t *Tree) Get(topic string) []interface{} {
 }
 
 func (t *Tree) get(topic string, node *node) []interface{} {
-	// set value on leaf
+	// return a copy of the values on leaf
 	if topic == topicEnd {
-		return node.values
+		return append([]interface{}(nil), node.values...)
 	}
 
 	// get segment
